@@ -37,6 +37,20 @@ for q, fi in sorted(m.funcs.items()):
     for n in ast.walk(fi.node):
         if isinstance(n, ast.FunctionDef) and n is not fi.node:
             funcs[sq + ".<locals>." + n.name] = 1
+# who calls whom (by last name): callers of each function, for rename matching
+callers = {}
+for q, fi in sorted(m.funcs.items()):
+    if fi.module in skip:
+        continue
+    sq = q[len(m.pkg) + 1:]
+    for n in ast.walk(fi.node):
+        if isinstance(n, ast.Call):
+            nm = getattr(n.func, "attr", None) or getattr(n.func, "id", None)
+            if nm:
+                callers.setdefault(nm, set()).add(sq)
+funcs["__callers__"] = {k: sorted(v) for k, v in sorted(callers.items())
+                        if any(q2.rsplit(".", 1)[-1] == k for q2 in funcs
+                               if not q2.startswith("__"))}
 with open(os.path.join(VERIF, "reference", "functions.json"), "w") as fh:
     json.dump(funcs, fh, indent=0, sort_keys=True)
 print(len(funcs), "function names")
